@@ -211,4 +211,33 @@ func init() {
 			return chunk("enum", "prod", 6*5*30*64, 3600, Job{Timeout: 20 * time.Minute})
 		},
 	})
+	register(&Plan{
+		Prop:  "C14",
+		Level: "exploration",
+		Rule: "the complete matrix {65 call sites: 30 native verbs/Context verbs/LogAttrs/Logit/Log/printf verbs, 24 package-level functions, 6 log/slog adapter forms (Logger.Info/WarnContext/Log/LogAttrs, With(..).Info, slog.Info after SetDefault), 4 std log bridge forms (Print/Printf/Println/Output)} x {json, logfmt, color} x {skip 0..4 set by WithSkip or SetSkip, with a wrapper chain of matching depth} x " +
+			"{root held as Logger interface, root as *Entry, child | default logger for package functions} x {inlinable, noinline wrappers; direct chains and closure chains}. Each call site is a one-line function literal that also records its own logical call stack (runtime.CallersFrames); " +
+			"the caller decoded from the record (file made absolute, line, function) must equal the frame `skip` logical frames above the call statement. thorough additionally builds the workload with -gcflags=all=-l. non-trivial = confirmed attribution; distinct = by cell",
+		Assumptions: []string{"runtime.CallersFrames over a 16-slot Callers buffer gives the true logical stack at the call site", "privacy path flags are off so that the reported file can be compared (C18 covers them)"},
+		Floors:      map[string]int64{"attributions_confirmed": 1000},
+		Exhaustive:  func(string) bool { return true },
+		Jobs: func(tier string, seed int64) []Job {
+			return chunk("sites", "prod", 7000, 500, Job{Timeout: 20 * time.Minute})
+		},
+	})
+	register(&Plan{
+		Prop:  "C15",
+		Level: "exploration",
+		Rule: "handler: cases = (underlying logger held as Logger or *Entry, pre-set level, all 8 HandlerOptions boolean combinations x 6 Level values, derivation chain of 0-4 WithAttrs/WithGroup calls, log/slog record with explicit time, standard level, hostile message and 0-5 attributes of every log/slog kind: String/Int64/Uint64/Float64/Bool/Time/Duration/Any(error|struct|nil|int8|[]string)/LogValuer/Group nested <= 3); " +
+			"oracles: Handler.Enabled == logger gate (base and derived); Handle emits exactly one record at the logger's own destination (nothing on fds 1/2, which are redirected); the decoded record (C04/C05/C06 decoders) has the message, the record's own time, the namesake severity and the expected attribute tree (attributes given after WithGroup nested under it); a log/slog.Logger on the handler emits iff the logger admits. " +
+			"bridge: all (8 logger levels x 8 bridge severities) pairs x Print/Printf/Println/Output x hostile messages with 0-2 trailing newlines: one record iff the logger admits the severity, message == std-log line minus its trailing newline, level == bridge severity. " +
+			"levelsweep: production child processes run Entry.Log for every log/slog level in -40..40 (only LevelFatal / LevelPanic may terminate; the four standard levels are recorded under their namesakes). non-trivial = decoded and matched record / judged pair; distinct = by payload or pair",
+		Assumptions: []string{"records carry a non-zero time", "attributes bound to the underlying logger itself are not generated (the statement does not say whether a handler shows them)", "an open group always receives at least one attribute (log/slog elides empty groups)"},
+		Floors:      map[string]int64{"records_decoded": 300, "derived_handler_records": 100, "enabled_compared": 1000, "bridge_calls": 500, "bridge_records_decoded": 100, "levels_returned_normally": 79, "explicit_terminations_observed": 2},
+		Jobs: func(tier string, seed int64) []Job {
+			js := chunk("handler", "prod", pick(tier, 4000, 200000), pick(tier, 400, 12500), Job{Timeout: 30 * time.Minute})
+			js = append(js, chunk("bridge", "prod", pick(tier, 2048, 65536), pick(tier, 512, 8192), Job{Timeout: 30 * time.Minute})...)
+			js = append(js, chunk("levelsweep", "prod", 3, 1, Job{Timeout: 10 * time.Minute})...)
+			return js
+		},
+	})
 }
